@@ -584,6 +584,19 @@ def gen_C06(tier, seed):
         p = Prog(f'C06-collide-{i}', {'kind': 'encode-collide'})
         p.steps.append({'op': 'encode', 'cases': c2 + cases[i * 50:(i + 1) * 50] + c2})
         progs.append(p.build())
+    # IDENT fields the writer fills itself (set names, object names, labels) at the UVARI / USHORT thresholds, seen in files:
+    # an IDENT has a one-byte length, 256 characters cannot be represented
+    for n in (1, 127, 128, 200, 255, 256):
+        p = Prog(f'C06-identfile-{n}', {'kind': 'identfile', 'n': n, 'fringe': n > 255})
+        p.file(1, vrl=8192)
+        lf = p.lf(1, fh_id='IDENT-LENGTHS')
+        nm = ''.join('ABCDEFGHIJ'[k % 10] for k in range(n))
+        p.origin(lf, name='O', set_name=nm)
+        c = p.channel(lf, nm[:255], data=np.arange(3, dtype='float64'), set_name=nm)
+        p.frame(lf, 'FR', [c], set_name=nm)
+        p.add(lf, 'zone', nm[:255], set_name=nm)
+        p.write(1, valid=n <= 255, either=n > 255, mustraise='ident' if n > 255 else '')
+        progs.append(p.build())
     return progs
 
 
